@@ -131,8 +131,9 @@ def model_join(rng):
     s = f'SELECT {r.choice(["*", "t.id, m.y", "t.*, m.y AS pred", "m.*"])} FROM {frm}'
     if conj:
         s += ' WHERE ' + ' AND '.join(conj)
-    if r.random() < 0.2:
-        s += ' ORDER BY t.id'
+    if r.random() < 0.25:
+        # a bare column, an expression, an ordinal
+        s += ' ORDER BY ' + r.choice(['t.id', 't.id', 't.id DESC', 'lower(t.c)', 't.a + 1', '1', 't.id, m.y', 'abs(t.a) DESC, t.id'])
     if r.random() < 0.3:
         s += f' LIMIT {r.choice([1, 5])}'
     using = {}
@@ -290,3 +291,17 @@ def cte_query(rng):
     if k == 'union':
         return f'WITH {name} AS ({body}) SELECT c.id AS id FROM {name} AS c UNION ALL SELECT o.id AS id FROM {qual_multi(other)} AS o'
     return f'WITH {name} AS ({body}) SELECT c.id AS cid, c.v AS cv FROM {name} AS c WHERE c.v IS NOT NULL'
+
+
+def star_query(rng):
+    """`SELECT [DISTINCT] *` on top of nested federated selects / joins of derived tables that project non-unique columns
+    (so that DISTINCT, and any other clause the outer select carries, is observable).  Unordered result."""
+    r = rng
+    d1 = f"(SELECT p.a AS a{r.choice(['', ', p.c AS c'])} FROM int1.t1 AS p{r.choice(['', ' WHERE p.a IS NOT NULL'])}) AS s"
+    d2 = f"(SELECT q.a AS b{r.choice(['', ', q.d AS d'])} FROM int2.t2 AS q) AS u"
+    inner_join = "(SELECT p.a AS a, q.d AS d FROM int1.t1 AS p JOIN int2.t2 AS q ON p.a = q.a) AS s"
+    frm = r.choice([f'{d1} JOIN {d2} ON s.a = u.b', f'{d1} LEFT JOIN {d2} ON s.a = u.b', inner_join, inner_join, f'{d1} JOIN int2.t2 AS u ON s.a = u.a'])
+    distinct = r.choice(['DISTINCT ', 'DISTINCT ', ''])
+    where = r.choice(['', '', ' WHERE s.a > 0', ' WHERE s.a IS NOT NULL'])
+    return f'SELECT {distinct}* FROM {frm}{where}'
+
